@@ -3,8 +3,10 @@ package main
 import (
 	"bytes"
 	"fmt"
+	"hash/fnv"
 	"math"
 	"reflect"
+	"runtime/debug"
 	"sort"
 	"strconv"
 	"strings"
@@ -468,7 +470,20 @@ func (p *probeRun) publicFingerprint() string {
 // privateFingerprint: private state without cache cells and stale indexes.
 func (p *probeRun) privateFingerprint(upto int) string {
 	s2 := &Session{handles: p.s.handles[:upto]}
-	return s2.dump()
+	// … and the CONTENT of every source buffer the nodes point into (the dump compares buffers by identity only)
+	order, _ := s2.numbering()
+	seen := map[*[]byte]bool{}
+	var b strings.Builder
+	for _, n := range order {
+		st := ajson.VerifNodeState(n)
+		if st.HasData && !seen[st.DataPtr] {
+			seen[st.DataPtr] = true
+			h := fnv.New64a()
+			h.Write(*st.DataPtr)
+			fmt.Fprintf(&b, " src%d:%x", len(seen), h.Sum64())
+		}
+	}
+	return s2.dump() + b.String()
 }
 
 func (p *probeRun) checkBuffers() {
@@ -505,6 +520,7 @@ func (p *probeRun) checkAll(step string) {
 				break
 			}
 		}
+		mustVsGet(p, n)
 		val, verr := n.Value()
 		switch {
 		case n.IsArray():
@@ -868,7 +884,11 @@ func probeHistory(o *Out, ops [][]string) {
 		if r := recover(); r != nil {
 			bh, ok := r.(badHandle)
 			if !ok {
-				panic(r)
+				// the library panicked inside one of the probes' own read-only calls (accessors, Marshal, JSONPath on the state
+				// this history reached): a C11 finding with the history as its replay; the other histories go on
+				o.Check("C11", "no-panic")
+				o.Fail("C11", "no-panic", fmt.Sprintf("a read-only call of the probes panicked on the state this history reached: %v", r), strings.Join(p.hist, "\n"), "", truncate(string(debug.Stack()), 1500))
+				return
 			}
 			// the second execution of the history diverged from the first. After a reported failure that is expected
 			// (a half-applied failed operation depends on map iteration order); without one, the divergence itself is
@@ -891,6 +911,8 @@ func probeHistory(o *Out, ops [][]string) {
 // step executes one request against the library, keeps the plain-data reference in step with it, and
 // (when check is set) evaluates the property probes. It returns the library's observation.
 func (p *probeRun) step(f []string, check bool) string {
+	watch(strings.Join(f, " ") + " (with the probes after it)")
+	defer opDone()
 	o := p.o
 	p.hist = append(p.hist, strings.Join(f, " "))
 	op := f[0]
@@ -913,6 +935,7 @@ func (p *probeRun) step(f []string, check bool) string {
 	var obs string
 	if op == "parse" {
 		noteOp(f)
+		defer opDone()
 		data := unhex(f[1])
 		buf := bytes.Repeat([]byte{0xAA}, len(data)+24)
 		copy(buf[8:], data)
@@ -941,6 +964,26 @@ func (p *probeRun) step(f []string, check bool) string {
 	}
 	if strings.HasPrefix(obs, "panic") {
 		p.fail("C11", "no-panic", "panic in "+strings.Join(f, " "), "", obs)
+		return obs
+	}
+	if obs == "hang" {
+		p.failed = true
+		o.Check("C11", "no-panic")
+		p.fail("C11", "no-panic", "the call never returned (endless loop): "+strings.Join(f, " "), "a result or an error", "no return within "+hangLimit.String())
+		if check && mutation {
+			p.fail("C15", "error-atomic", "a request that should fail or succeed never returned: "+strings.Join(f, " "), "", "")
+		}
+		return obs
+	}
+	if p.s.poisoned {
+		// the request was accepted and made a node its own ancestor / descendant
+		p.failed = true
+		if check {
+			o.Check("C06", "structure+views")
+			p.fail("C06", "structure+views", "after "+strings.Join(f, " ")+" a node is its own ancestor or descendant (the request should have been rejected)", "error", obs)
+			p.fail("C05", "value-vs-plain-data", "after "+strings.Join(f, " ")+" the tree is cyclic: it has no value", "error", obs)
+			p.fail("C15", "error-atomic", "a request that creates a loop was not rejected: "+strings.Join(f, " "), "error", obs)
+		}
 		return obs
 	}
 	// new handles: constructors, clone, pops, navigation
@@ -1211,5 +1254,50 @@ func (p *probeRun) checkCompare(f []string, obs string) {
 		if r4, e4 := a.Neq(b); e4 != nil || "ok "+boolStr(!r4) != obs {
 			p.fail("C17", "compare-vs-plain-data", "Neq is not the negation of Eq", obs, fmt.Sprint(r4, e4))
 		}
+	}
+}
+
+// mustVsGet: the Must… accessors panic exactly when the corresponding getter reports an error and return the same value
+// otherwise; the Is… predicates say what Type() says.
+func mustVsGet(p *probeRun, n *ajson.Node) {
+	p.o.Check("C02", "must-vs-get")
+	try := func(f func() string) (out string, panicked bool) {
+		defer func() {
+			if r := recover(); r != nil {
+				panicked = true
+			}
+		}()
+		return f(), false
+	}
+	cmp := func(name string, get func() (string, error), must func() string) {
+		g, err := get()
+		m, panicked := try(must)
+		if panicked != (err != nil) {
+			p.fail("C02", "must-vs-get", fmt.Sprintf("Must%s panics=%v but Get%s error=%v at %s", name, panicked, name, err, n.Path()), "", "")
+		} else if err == nil && g != m {
+			p.fail("C02", "must-vs-get", "Must"+name+" and Get"+name+" return different values at "+n.Path(), g, m)
+		}
+	}
+	nodes := func(ns []*ajson.Node) string { return fmt.Sprintf("%p", ns) + fmt.Sprint(len(ns)) }
+	cmp("Numeric", func() (string, error) { v, e := n.GetNumeric(); return hex64(math.Float64bits(v)), e }, func() string { return hex64(math.Float64bits(n.MustNumeric())) })
+	cmp("String", func() (string, error) { return n.GetString() }, func() string { return n.MustString() })
+	cmp("Bool", func() (string, error) { v, e := n.GetBool(); return fmt.Sprint(v), e }, func() string { return fmt.Sprint(n.MustBool()) })
+	cmp("Null", func() (string, error) { v, e := n.GetNull(); return fmt.Sprint(v), e }, func() string { return fmt.Sprint(n.MustNull()) })
+	cmp("Array", func() (string, error) { v, e := n.GetArray(); return fmt.Sprint(v), e }, func() string { return fmt.Sprint(n.MustArray()) })
+	cmp("Object", func() (string, error) { v, e := n.GetObject(); return fmt.Sprint(v), e }, func() string { return fmt.Sprint(n.MustObject()) })
+	_ = nodes
+	if n.Size() > 0 {
+		cmp("Index(0)", func() (string, error) { v, e := n.GetIndex(0); return fmt.Sprintf("%p", v), e }, func() string { return fmt.Sprintf("%p", n.MustIndex(0)) })
+		cmp("Index(-1)", func() (string, error) { v, e := n.GetIndex(-1); return fmt.Sprintf("%p", v), e }, func() string { return fmt.Sprintf("%p", n.MustIndex(-1)) })
+	}
+	cmp("Index(size)", func() (string, error) { v, e := n.GetIndex(n.Size()); return fmt.Sprintf("%p", v), e }, func() string { return fmt.Sprintf("%p", n.MustIndex(n.Size())) })
+	for _, k := range append(n.Keys(), "no-such-key") {
+		k := k
+		cmp("Key", func() (string, error) { v, e := n.GetKey(k); return fmt.Sprintf("%p", v), e }, func() string { return fmt.Sprintf("%p", n.MustKey(k)) })
+	}
+	t := n.Type()
+	if n.IsNull() != (t == ajson.Null) || n.IsNumeric() != (t == ajson.Numeric) || n.IsString() != (t == ajson.String) || n.IsBool() != (t == ajson.Bool) ||
+		n.IsArray() != (t == ajson.Array) || n.IsObject() != (t == ajson.Object) {
+		p.fail("C02", "must-vs-get", "the Is… predicates disagree with Type() at "+n.Path(), fmt.Sprint(t), "")
 	}
 }
